@@ -3,7 +3,7 @@ from harness.props import c09 as B
 
 ID = "C10"
 ENTRY = "searcharray.solr.edismax(frame, q, qf, pf=..., pf2=..., pf3=...)"
-LEVEL = "other"
+LEVEL = "proof"
 RULE = ("as C09 with pf / pf2 / pf3 any subsets of the query fields with boosts, frames where only some rows match the "
         "query fields (so the matching subset's statistics differ from the frame's), 2-, 3-, 4+-term queries and queries "
         "shorter than the shingle size. Non-trivial = a row whose score exceeds its query-field score and a row kept at 0.")
